@@ -151,6 +151,10 @@ def rk4Iter {σ : Type} (P : R4Params α) (f : Rhs α n) (ob : Obs σ α n) (s :
   else
     let a := rk4Adjust P s
     let h := a.1
+    -- "A step below the resolution of x would never advance it": `if x + h == x { StepSizeTooSmall }`
+    if Num.eqb (s.x + h) s.x then
+      .inr { status := .stepSizeTooSmall, h := h, x := s.x, y := s.y, m := s.m, obs := s.obs }
+    else
     let o := Gen.Rk4.stages (f := fun j => f (s.m.ncalls + j)) (y := s.y) (h := h) (k1 := s.k1) (x := s.x)
     let m := s.m.bump o.calls 3
     let xold := s.x
